@@ -99,8 +99,14 @@ structure Obj where
   /-- ghost: its entry in `writtenCaches` was overwritten while the transaction held its write lock;
   `Commit` never unlocks it (it is unreachable: not in the map, in no `writtenCaches`) -/
   orphan : Bool := false
-  /-- ghost: scrapped and unlocked by this transaction when it registered a new cache under the same name -/
+  /-- ghost: the FIRST transaction that scrapped and unlocked it when registering a new cache under the same name -/
   dropped : Option TxId := none
+  /-- ghost: a private cold copy (created because `TryRLock` failed or the shared cache was scrapped) -/
+  cold : Bool := false
+  /-- ghost: the goroutine that created it -/
+  creator : Tid := .w 0
+  /-- ghost: other goroutines may have a reference (the creator has released the mutex that hid it) -/
+  pub : Bool := false
   deriving Repr, Inhabited
 
 structure Tx where
@@ -197,8 +203,8 @@ def enabled (s : St) (t : Tid) : Bool :=
   | .cDone => false
   | _ => true
 
-def St.alloc (s : St) (name : Name) : St × ObjId :=
-  ({ s with objs := upd s.objs s.nObj { name := name }, nObj := s.nObj + 1 }, s.nObj)
+def St.alloc (s : St) (name : Name) (creator : Tid) (cold : Bool) : St × ObjId :=
+  ({ s with objs := upd s.objs s.nObj { name := name, creator := creator, cold := cold }, nObj := s.nObj + 1 }, s.nObj)
 
 set_option linter.unusedVariables false in
 /-- the action of thread `t` parked at program counter `pc` -/
@@ -249,7 +255,7 @@ def stepAt (s : St) (t : Tid) (c : Choice) : PC → St
   | .rColdCreate =>
     let th := s.thr t; let T := th.tx; let tx := s.txs T; let a := th.acc
     if a.crOk then
-      let (s, o) := s.alloc a.name
+      let (s, o) := s.alloc a.name t true
       s.setThr t { th with use := o, pc := .chkScrapped }
     else (s.setTx T { tx with failed := true }).setThr t th.doReturn
   -- existing, writing
@@ -279,7 +285,7 @@ def stepAt (s : St) (t : Tid) (c : Choice) : PC → St
   | .sCreate =>
     let th := s.thr t; let T := th.tx; let tx := s.txs T; let a := th.acc
     if a.crOk then
-      let (s, o) := s.alloc a.name
+      let (s, o) := s.alloc a.name t true
       s.setThr t { th with use := o, pc := .callF }
     else (s.setTx T { tx with failed := true }).setThr t th.doReturn
   | .callF =>
@@ -309,7 +315,7 @@ def stepAt (s : St) (t : Tid) (c : Choice) : PC → St
   | .nCreate =>
     let th := s.thr t; let T := th.tx; let tx := s.txs T; let a := th.acc
     if a.crOk then
-      let (s, o) := s.alloc a.name
+      let (s, o) := s.alloc a.name t false
       s.setThr t { th with use := o, existing := o, pc := .nStore }
     else (s.setTx T { tx with failed := true }).setThr t { th with pc := .nFailMgrUnlock }
   | .nFailMgrUnlock =>
@@ -349,7 +355,7 @@ def stepAt (s : St) (t : Tid) (c : Choice) : PC → St
     | some old =>
       let ob := s.objs old
       ((s.setObj old { ob with scrapped := true, writer := none, wown := ob.wown.erase T, dirty := some T,
-                               dropped := some T }).setTx T
+                               dropped := if ob.dropped.isSome then ob.dropped else some T }).setTx T
         { tx with written := tx.written.filter (fun p => p.1 != a.name) }).setThr t { th with pc := .nRegister }
     | none => s.setThr t { th with pc := .nRegister }
   | .nRegister =>
@@ -362,10 +368,10 @@ def stepAt (s : St) (t : Tid) (c : Choice) : PC → St
     (s.setTx T { tx with written := aput tx.written a.name th.use }).setThr t { th with pc := .nTxUnlock }
   | .nTxUnlock =>
     let th := s.thr t; let T := th.tx; let tx := s.txs T; let a := th.acc
-    (s.setTx T { tx with mu := none }).setThr t { th with pc := .nMgrUnlock }
+    ((s.setObj th.use { s.objs th.use with pub := true }).setTx T { tx with mu := none }).setThr t { th with pc := .nMgrUnlock }
   | .nMgrUnlock =>
     let th := s.thr t; let T := th.tx; let tx := s.txs T; let a := th.acc
-    ({ s with mgr := none }).setThr t { th with pc := .callF }
+    ({ (s.setObj th.use { s.objs th.use with pub := true }) with mgr := none }).setThr t { th with pc := .callF }
   -- deferred calls
   | .pEnter =>
     let th := s.thr t; let T := th.tx; let tx := s.txs T; let a := th.acc
